@@ -135,6 +135,9 @@ def load_sources(ctx, n_mut_per_file, include_known=True, gen=0, pid=None):
                 res.append((name, text, "livegrid"))
         for k in range(gen):
             res.append(("gen%04d_%d" % (k, ctx.seed), wgen.generate(random.Random(ctx.seed * 100003 + k)), "generated"))
+    only = os.environ.get("VERIF_WCORE_ONLY")      # (debugging aid: a regular expression on the source names)
+    if only:
+        res = [r for r in res if re.search(only, r[0])]
     return res
 
 
